@@ -909,3 +909,93 @@ def rule_no_nested_pool_wait(ctx):
                               "with as many pending pairs as workers the reduction deadlocks", where=f"{m.relpath}:{c.lineno}", operand=target))
     r.floor(n, 1, "par_reduce calls with a quimb.core reducer")
     return r
+
+
+_SEED_DEFS = {}
+_SEED_DEPTH = [0]
+
+
+def _seed_sign(e, pos_names):
+    """'pos' (>= 1 whenever the function's size parameters are >= 1) / 'zero?' (may be 0) for an integer expression."""
+    if isinstance(e, ast.Constant) and isinstance(e.value, (int, float)):
+        return "pos" if e.value >= 1 else "zero?"
+    if isinstance(e, ast.Name):
+        if e.id in pos_names:
+            return "pos"
+        d = _SEED_DEFS.get(e.id)
+        if d is not None and len(d) == 1 and _SEED_DEPTH[0] < 4:
+            _SEED_DEPTH[0] += 1
+            try:
+                return _seed_sign(d[0], pos_names)
+            finally:
+                _SEED_DEPTH[0] -= 1
+        return "zero?"
+    if isinstance(e, ast.Subscript):
+        return "pos"  # a size looked up in a table (dims[i], pt[n, k]): sizes are taken to be positive, like the parameters
+    if isinstance(e, ast.BinOp) and isinstance(e.op, ast.Pow):
+        return "pos" if _seed_sign(e.left, pos_names) == "pos" else "zero?"
+    if isinstance(e, ast.Call) and isinstance(e.func, ast.Name) and e.func.id == "len":
+        return "pos"
+    if isinstance(e, ast.Call) and isinstance(e.func, ast.Name) and e.func.id == "max" and e.args:
+        return "pos" if any(_seed_sign(a, pos_names) == "pos" for a in e.args) else "zero?"
+    if isinstance(e, ast.Call) and isinstance(e.func, ast.Name) and e.func.id == "int" and len(e.args) == 1:
+        return _seed_sign(e.args[0], pos_names)
+    if isinstance(e, ast.BinOp):
+        l, r_ = _seed_sign(e.left, pos_names), _seed_sign(e.right, pos_names)
+        if isinstance(e.op, ast.Add):
+            return "pos" if "pos" in (l, r_) and not any(isinstance(x, ast.UnaryOp) for x in (e.left, e.right)) else "zero?"
+        if isinstance(e.op, (ast.Mult, ast.Pow)):
+            return "pos" if l == r_ == "pos" else "zero?"
+        return "zero?"  # //, /, -, %, >> ... can reach 0 for positive operands
+    return "zero?"
+
+
+def rule_growth_seed_positive(ctx):
+    r = RuleResult(
+        "growth-seed-positive",
+        "a buffer capacity that grows by multiplication (`cap *= 2` when the write pointer reaches it) can only grow from a value >= 1: "
+        "every other definition of the capacity is positive whenever the kernel's size parameters are (sign / zero abstract evaluation: "
+        "parameters and positive literals are positive, + and * keep positivity, max(positive, .) restores it; //, -, %, / may reach 0) — "
+        "a capacity of 0 doubles to 0 and the kernel writes past an empty buffer (numba does not bounds-check)",
+    )
+    n = 0
+    for m in ctx.prog.modules.values():
+        if not (m.name.startswith("quimb.operator") or m.name in ("quimb.core", "quimb.linalg.numbalinalg")):
+            continue
+        for f in m.all_functions:
+            if f.is_alias or isinstance(f.node, ast.Lambda):
+                continue
+            grown = {}
+            for x in ast.walk(f.node):
+                if isinstance(x, ast.AugAssign) and isinstance(x.op, (ast.Mult, ast.LShift)) and isinstance(x.target, ast.Name) \
+                        and isinstance(x.value, ast.Constant) and isinstance(x.value.value, int) and x.value.value >= 1:
+                    grown.setdefault(x.target.id, x)
+                if isinstance(x, ast.Assign) and len(x.targets) == 1 and isinstance(x.targets[0], ast.Name) and isinstance(x.value, ast.BinOp) \
+                        and isinstance(x.value.op, ast.Mult) and any(isinstance(s_, ast.Name) and s_.id == x.targets[0].id for s_ in (x.value.left, x.value.right)) \
+                        and any(isinstance(s_, ast.Constant) for s_ in (x.value.left, x.value.right)):
+                    grown.setdefault(x.targets[0].id, x)
+            for name, g in grown.items():
+                # only capacities: the grown name is compared with a write pointer somewhere
+                if not any(isinstance(c, ast.Compare) and any(isinstance(y, ast.Name) and y.id == name for y in ast.walk(c)) for c in ast.walk(f.node)):
+                    continue
+                seeds = [a for a in ast.walk(f.node) if isinstance(a, ast.Assign) and a is not g and any(isinstance(t, ast.Name) and t.id == name for t in a.targets)]
+                if not seeds:
+                    continue
+                n += 1
+                pos_names = set(f.params)
+                _SEED_DEFS.clear()
+                for a in ast.walk(f.node):
+                    if isinstance(a, ast.Assign) and len(a.targets) == 1 and isinstance(a.targets[0], ast.Name) and a.targets[0].id != name:
+                        _SEED_DEFS.setdefault(a.targets[0].id, []).append(a.value)
+                q = f"{f.qualname}:{name}"
+                bad = [a for a in seeds if _seed_sign(a.value, pos_names) != "pos"]
+                if bad:
+                    a = bad[0]
+                    r.bad(Finding("growth-seed-positive", f.qualname,
+                                  f"`{src_of(a)[:50]}` seeds the capacity `{name}` that only grows by `{src_of(g)[:20]}` with a value that can be 0 for positive sizes: "
+                                  "0 doubles to 0, the buffers stay empty and the next write goes past their end",
+                                  where=f"{m.relpath}:{a.lineno}", operand=name))
+                else:
+                    r.ok(q, sample={"kernel": f.qualname, "capacity": name, "seed": src_of(seeds[0].value)[:30], "growth": src_of(g)[:20]})
+    r.floor(n, 4, "multiplicatively grown buffer capacities")
+    return r
